@@ -47,6 +47,9 @@ type Engine struct {
 	stubs     map[string]bool
 	unknownCallees map[string]bool
 	intMode   bool
+	intObligs []intOblig
+	intAxioms []*Term
+	byteInts  map[int]*Term
 }
 
 type PathEnd struct {
@@ -368,6 +371,7 @@ func (e *Engine) RunHarness(fn *ssa.Function, base *State) *HarnessResult {
 	e.encoded = map[string]bool{}
 	e.stubs = map[string]bool{}
 	e.unknownCallees = map[string]bool{}
+	e.intMode, e.intObligs, e.intAxioms, e.byteInts = false, nil, nil, map[int]*Term{}
 	q0 := [3]int{e.solver.NUnsat, e.solver.NSat, e.solver.NUnknown}
 	t0 := e.solver.Time
 	st := base.clone(0)
